@@ -245,6 +245,11 @@ func (state *RuntimeState) VIPPollCheckHandler(w http.ResponseWriter, r *http.Re
 		state.writeFailureResponse(w, r, http.StatusPreconditionFailed, "Error parsing form")
 		return
 	}
+	if pushTransaction.ExpiresAt.Before(time.Now()) {
+		logger.Printf("VIPPollCheckHandler: push transaction expired")
+		state.writeFailureResponse(w, r, http.StatusPreconditionFailed, "Error parsing form")
+		return
+	}
 	if pushTransaction.Username != authData.Username {
 		logger.Printf("VIPPollCheckHandler: push transaction of %s polled by %s",
 			pushTransaction.Username, authData.Username)
